@@ -365,6 +365,10 @@ def _interleave(rng, specials, cfg=DEFAULT):
     return out
 
 
+ALMOST_ZERO = [1e-20, -1e-30, 1e-17, -2e-16, 3e-40]
+ALMOST_ONE = [1.0000000000000002, 0.9999999999999999, 1 + 1e-12]
+ALMOST_MINUS_ONE = [-1.0000000000000002, -0.9999999999999999]
+
 RULE_SHAPES = [
     "add_flatten", "add_zeros", "add_logs", "add_consts", "add_negations", "mul_flatten", "mul_zero", "mul_ones",
     "mul_negations", "mul_nthpowers", "mul_nthroots", "mul_exponentials", "mul_consts", "mul_reciprocals",
@@ -373,7 +377,7 @@ RULE_SHAPES = [
     "npow_one", "npow_root", "npow_npow", "npow_neg", "npow_rec", "npow_exp",
     "root_one", "root_npow", "root_root", "root_neg", "root_rec",
     "exp_log", "exp_neg", "log_exp", "log_rec", "log_npow", "cos_neg", "sin_neg", "const_fold", "const_fold_undef",
-    "quot_negsum_both", "quot_negsum_one", "prod_negsums", "neg_quotient", "sum_all_negated",
+    "quot_negsum_both", "quot_negsum_one", "prod_negsums", "neg_quotient", "sum_all_negated", "almost_special",
 ]
 
 
@@ -386,13 +390,29 @@ def rule_shape(rng, name=None, cfg=DEFAULT):
         inner = ("Add",) + tuple(_siblings(rng, 0, 3, cfg))
         return ("Add",) + tuple(_interleave(rng, [inner] + ([("Add",) + tuple(_siblings(rng, 0, 2, cfg))] if rng.random() < 0.4 else []), cfg))
     if name == "add_zeros":
-        return ("Add",) + tuple(_interleave(rng, [("Constant", rng.choice([0, 0.0, -0.0]))] * rng.randint(1, 3), cfg))
+        zs = [("Constant", rng.choice([0, 0.0, -0.0])) for _ in range(rng.randint(1, 3))]
+        if rng.random() < 0.4:
+            zs.append(("Constant", rng.choice(ALMOST_ZERO)))          # tiny but NOT zero: must survive
+        return ("Add",) + tuple(_interleave(rng, zs, cfg))
+    if name == "almost_special":
+        # constants next to the values the rules test for (0, 1, -1, integral exponents): nothing may treat them as special
+        c = lambda pool: ("Constant", rng.choice(pool))
+        return rng.choice([
+            ("Multiply", c(ALMOST_ZERO), h(), ("Constant", 1e20)), ("Multiply", h(), c(ALMOST_ZERO)), ("Add", h(), c(ALMOST_ZERO)),
+            ("Reciprocal", ("Add", h(), c(ALMOST_ZERO))), ("Multiply", c(ALMOST_ONE), h()), ("Power", h(), c(ALMOST_ONE)),
+            ("Power", c(ALMOST_ONE), h()), ("Power", h(), c(ALMOST_ZERO)), ("Power", h(), c(ALMOST_MINUS_ONE)),
+            ("Power", h(), ("Constant", rng.choice([2.0000000000000004, 2.9999999999999996]))), ("Multiply", c(ALMOST_MINUS_ONE), h(), c(ALMOST_MINUS_ONE)),
+            ("Divide", c(ALMOST_ZERO), h()), ("Logarithm", ("Add", h(), c(ALMOST_ZERO)), None), ("Minus", h(), c(ALMOST_ZERO)),
+        ])
     if name == "add_logs":
         b1 = b()
         logs = [("Logarithm", h(), b1) for _ in range(rng.randint(2, 3))]
         if rng.random() < 0.5:
             b2 = b() if rng.random() < 0.6 else (lambda v: v * (1 + 1e-10))(float(S.base_value(b1)))
             logs += [("Logarithm", h(), b2) for _ in range(rng.randint(1, 2))]
+        # plus 0-3 logarithms that are each alone in their own base
+        for bb in rng.sample([3, 7.25, 0.1, 1.5, 0.25, 5, 12], rng.randint(0, 3)):
+            logs.append(("Logarithm", h(), bb))
         rng.shuffle(logs)
         return ("Add",) + tuple(_interleave(rng, logs, cfg))
     if name == "add_consts":
@@ -417,6 +437,8 @@ def rule_shape(rng, name=None, cfg=DEFAULT):
         if rng.random() < 0.5:
             n2 = n()
             ps += [("NthPower", h(), n2) for _ in range(rng.randint(1, 2))]
+        for nn in rng.sample([9, 10, 11, 12, 7], rng.randint(0, 3)):
+            ps.append(("NthPower", h(), nn))
         rng.shuffle(ps)
         return ("Multiply",) + tuple(_interleave(rng, ps, cfg))
     if name == "mul_nthroots":
@@ -425,6 +447,8 @@ def rule_shape(rng, name=None, cfg=DEFAULT):
         if rng.random() < 0.5:
             n2 = n()
             ps += [("NthRoot", h(), n2) for _ in range(rng.randint(1, 2))]
+        for nn in rng.sample([9, 10, 11, 12, 7], rng.randint(0, 3)):
+            ps.append(("NthRoot", h(), nn))
         rng.shuffle(ps)
         return ("Multiply",) + tuple(_interleave(rng, ps, cfg))
     if name == "mul_exponentials":
@@ -433,6 +457,8 @@ def rule_shape(rng, name=None, cfg=DEFAULT):
         if rng.random() < 0.5:
             b2 = rng.choice([b(), 1, math.nextafter(float(S.base_value(b1)), math.inf), float(S.base_value(b1)) * (1 - 1e-11)])
             ps += [("Exponential", h(), b2) for _ in range(rng.randint(1, 2))]
+        for bb in rng.sample([3, 7.25, 0.1, 1.5, 0.25, 5, 12], rng.randint(0, 3)):
+            ps.append(("Exponential", h(), bb))
         rng.shuffle(ps)
         return ("Multiply",) + tuple(_interleave(rng, ps, cfg))
     if name == "mul_consts":
